@@ -7,6 +7,7 @@ an executor that completes its tasks in the case's completion order; `TZ` + `tim
 """
 import calendar
 import concurrent.futures
+import itertools
 import logging
 import math
 import os
@@ -210,27 +211,39 @@ class C04(Prop):
     anchored = ["src/pewlib/io/csv.py"]
     cases = {"quick": 1500, "thorough": 40000}
     rule = ("synthetic directories in the Nu / iCap LDR / TOFWERK / generic layouts (1..8 line files, numbers 9/10/11/100, "
-            "unequal lengths, 1..4 elements, distractor / hidden / directory entries, shuffled listing, shuffled task "
-            "completion, 5 time zones with stamps around DST transitions, explicit and auto-detected option; 40% of the cases "
+            "plain / zero-padded / per-file (mixed) padding of the index, LDR sample names with digits and the lines of two "
+            "samples in one directory, unequal lengths, 1..4 elements, distractor / hidden / directory entries, shuffled "
+            "listing, shuffled task completion (targeted: EVERY completion order of directories of up to 5 files - thorough, "
+            "x 5 time zones; up to 3 files - quick), 5 time zones with stamps around DST transitions, month/day written with "
+            "one digit, a few stamps outside the valid ones (not judged, agreement with the model counted), explicit and "
+            "auto-detected option; 40% of the cases "
             "with an explicit option object first import one or two primer directories of the same layout - other line "
             "count / element set / helper columns, element or helper columns empty in every line, or the real directory "
             "itself - through the SAME option instance, and the import that follows is compared with the specification "
             "of the real directory alone) plus batches of "
-            "file names for the pattern matchers; non-trivial = at least two line files or a distractor; distinct by case hash")
+            "file names on which the model's matchers, filter, sort and the order its sort keys induce (which names have a "
+            "key, how neighbouring keys compare) are compared with the real option.regex / option.filter / option.sort / "
+            "option.sortkey (TOFWERK: under 5 TZ settings) of the four options; non-trivial = at least two line files or a distractor; distinct by case hash")
     trusted = [
         "np.genfromtxt parses a written table to the values float(token) (NaN for unparsable/empty tokens) and names the "
         "fields as the writer expects (spaces -> '_', quotes deleted for TOFWERK, empty -> f0); np.stack/np.delete/"
         "rfn.drop_fields/np.median/np.diff/np.round as documented",
-        "Python: sorted is stable, re / pathlib.PurePath.stem / str.isdigit / time.strptime / calendar.timegm on ASCII names "
-        "(the Lean matchers, stem, digit key and timegm are compared with them on generated names in every run)",
+        "Python: sorted is stable, re / pathlib.PurePath.stem / str.isdigit / str.lower / tuple and Path comparison / "
+        "time.strptime / calendar.timegm on ASCII names (the Lean matchers, stem, keys, filter and sort are compared with the "
+        "real option objects on generated names in every run)",
         "a future returns the result of its own task; the substituted executor completes tasks in the chosen order",
         "scantime/spotsize: exact rational evaluation; a value whose unrounded exact value is within 1e-6 of a rounding "
         "tie is not compared (float evaluation error of diff/median/scale is far below that)",
     ]
     assumptions = [
-        "file names are ASCII; all line files of one directory share their header, their LDR prefix and their "
-        "zero-padding style (one acquisition); every line has at least two samples",
-        "TOFWERK stamps have the strict form YYYY.MM.DD-HHhMMmSSs and are valid dates",
+        "file names are ASCII and no two differ in letter case only; all line files of one directory share their header; "
+        "every line has at least two samples; Nu names are exactly line_<digits>.csv (nothing after .csv)",
+        "acquisition order of an LDR directory that holds several sample names: grouped by lower-cased sample name (string "
+        "order), then numeric line index - the order the code documents; the property text only names the line index",
+        "TOFWERK stamps have the form YYYY.MM.DD-HHhMMmSSs (every field zero-padded) and are valid dates and times of day: a "
+        "directory with a stamp time.strptime rejects (the import raises ValueError), with a leap-second stamp (seconds 60/61) "
+        "or with a one-digit month / day (both accepted by time.strptime) is not judged; whether pewlib does what the model "
+        "says there is only counted (feature stamp-out-of-domain:model-agrees / model-differs)",
         "an empty selection (no accepted file) is not compared (the property does not say what happens)",
         "histories: the result of importing a directory does not depend on earlier imports made with the same option "
         "object; what the earlier (primer) imports return or raise is not judged",
@@ -245,7 +258,9 @@ class C04(Prop):
     def gen_names(self, rng):
         alphabet = "line_LDR0123456789.csvCSVhms-_ xA.."
         pieces = ["line_", "LINE_", "_ldr_", "_LDR_", ".csv", ".CSV", ".Csv", "10", "9", "007", "2021.03.28", "-02h30m00s", "-10H10M10S",
-                  "IMG_", "a", "_", ".", "-", " ", "x.y", ".bak", "csv", "1", "2021.1.5", "h", "m", "s"]
+                  "IMG_", "a", "_", ".", "-", " ", "x.y", ".bak", "csv", "1", "2021.1.5", "h", "m", "s", "s1", "S1", "B", "009",
+                  "2021.02.30", "2021.13.01", "2020.02.29", "2021.6.30", "-23h59m60s", "-24h00m00s", "-10h60m00s", "0000.01.01",
+                  "2021.010.1", "x_", "_ldr_10.csv", "_ldr_009.csv", "line_007.csv"]
         names = []
         for _ in range(40):
             k = rng.random()
@@ -262,6 +277,14 @@ class C04(Prop):
             if nm and "/" not in nm and nm not in (".", ".."):
                 names.append(nm)
         return {"kind": "names", "names": names}
+
+    def fixed_dir(self, vendor, names, seed, tz="UTC", feats=()):
+        """a directory with the given line-file names (in listing order), tables drawn from a fixed seed"""
+        rng = random.Random(seed)
+        tables, f2 = gen_csvdir.make_tables(rng, vendor, len(names))
+        entries = [{"name": nm, "type": "file", "role": "line", "eol": "\n", **t} for nm, t in zip(names, tables)]
+        return {"kind": "load", "vendor": vendor, "auto": False, "tz": tz, "pi": list(reversed(range(len(names)))),
+                "entries": entries, "gen_features": sorted(set(list(feats) + f2))}
 
     def targeted(self, tier):
         import random
@@ -289,6 +312,37 @@ class C04(Prop):
                     if c["vendor"] == vendor and not c["auto"] and want in c["gen_features"] and "k1" not in c["gen_features"]:
                         break
                 yield c
+        # the LDR key repaired by 0a523e4 (all digits of the stem -> sample name, integer index): mixed zero padding,
+        # digits in the sample name, the lines of two samples, one sample in two letter cases; Nu with mixed padding
+        for vendor, names, feats in (
+                ("ldr", ["s1_ldr_10.csv", "s1_ldr_009.csv"], ["mixed-padding", "prefix-digits"]),
+                ("ldr", ["s1_ldr_10.csv", "s1_ldr_9.csv", "s1_ldr_011.csv", "s1_ldr_0100.csv"], ["mixed-padding", "prefix-digits"]),
+                ("ldr", ["s2_ldr_1.csv", "s1_ldr_10.csv", "s1_ldr_9.csv", "s2_ldr_02.csv", "s10_ldr_3.csv"], ["two-samples", "prefix-digits"]),
+                ("ldr", ["b_LDR_2.csv", "B_ldr_10.CSV", "a_ldr_11.csv", "b_ldr_009.csv"], ["two-samples", "sample-case-mix", "mixed-padding"]),
+                ("ldr", ["a_ldr_1_ldr_10.csv", "a_ldr_1_ldr_9.csv", "a_ldr_2.csv"], ["two-samples", "prefix-digits"]),
+                ("nu", ["line_10.csv", "line_007.csv", "LINE_9.CSV", "line_0100.csv"], ["mixed-padding"]),
+                ("nu", ["line_010.csv", "line_9.csv"], ["mixed-padding"])):
+            for rev in (False, True):
+                yield self.fixed_dir(vendor, list(reversed(names)) if rev else names, f"C04-targeted-pad-{names}", feats=feats + ["lex!=num"])
+        # a stamp time.strptime rejects: the import raises (compared with the model); one-digit month and day
+        yield self.fixed_dir("tofwerk", ["IMG_2021.02.30-10h10m10s.csv", "IMG_2021.02.28-10h10m10s.csv"], "C04-targeted-bad", feats=["invalid-stamp"])
+        yield self.fixed_dir("tofwerk", ["IMG_2021.06.30-23h59m60s.csv", "IMG_2021.07.01-00h00m00s.csv"], "C04-targeted-leap", feats=["leap-second-stamp"])
+        yield self.fixed_dir("tofwerk", ["IMG_2021.10.2-10h10m10s.csv", "IMG_2021.9.30-10h10m10s.csv", "IMG_2021.09.3-10h10m10s.csv"],
+                             "C04-targeted-short", feats=["short-date-fields"])
+        # EVERY completion order of the reader tasks of one directory per layout and size
+        nmax, zones = (5, gen_csvdir.ZONES) if tier == "thorough" else (3, ["UTC"])
+        for vendor in gen_csvdir.VENDORS:
+            for n in range(1, nmax + 1):
+                rng = random.Random(f"C04-targeted-allorders-{vendor}-{n}")
+                c = gen_csvdir.generate(rng, tier)
+                while (c["vendor"] != vendor or sum(e["role"] == "line" for e in c["entries"]) != n
+                       or {"invalid-stamp", "leap-second-stamp"} & set(c["gen_features"])):
+                    c = gen_csvdir.generate(rng, tier)
+                c.pop("primers", None)
+                c["gen_features"] = sorted(set(c["gen_features"]) | {"all-completion-orders"})
+                for tz in zones:
+                    for pi in itertools.permutations(range(n)):
+                        yield {**c, "tz": tz, "pi": list(pi)}
         # the DST defect repaired by 61edfa9: a stamp inside the spring gap and one shortly after it
         for tz, date, a, b in (("Europe/Berlin", "2021.03.28", "02h30m00s", "03h10m00s"),
                                ("America/New_York", "2021.03.14", "02h45m10s", "03h05m00s"),
@@ -358,7 +412,7 @@ class C04(Prop):
                 impl = impl_result(data, params)
             except Exception as e:
                 impl = {"raises": type(e).__name__, "msg": str(e)[:200]}
-        if "msg" in impl and impl["raises"] == model.get("raises") == spec.get("raises"):
+        if "msg" in impl and impl["raises"] == model.get("raises"):
             impl = {"raises": impl["raises"]}
         impl, model, spec = blank(impl, und), blank(model, und), blank(spec, und)
 
@@ -377,45 +431,124 @@ class C04(Prop):
             feats = {f for f in feats if not f.startswith(("primer-", "two-primers"))}
         empty = not lines
         nontrivial = n >= 2 or any(e["role"] != "line" for e in entries)
+        if not (rep["keys_defined"] and rep["valid_stamps"] and rep["strict_stamps"]):
+            # a stamp that is no valid date / a leap second / a month or day written with one digit (not what the instrument
+            # writes): the property does not say what the import does with such a directory (time.strptime rejects the
+            # first and accepts the others; another parser, or the stamp text as key, may differ), so the case is not judged; whether pewlib does what the model says (ValueError exactly when time.strptime rejects a
+            # stamp) is recorded as a feature only
+            feats.add("stamp-out-of-domain:" + ("model-agrees" if core.canon(impl) == core.canon(model) else "model-differs"))
+            return outcome(impl, model, spec, undetermined=True, hyp=False, features=feats if nontrivial else [])
         return outcome(impl, model, spec, undetermined=empty, hyp=rep["hyp"], features=feats if nontrivial else [])
 
     def eval_names(self, case, ctx):
+        """the model's matchers, filter, sort and the ORDER its sort keys induce against the real option objects.
+        The value of a sort key is not observable through `load` (a rewrite may return a datetime, a tuple, another
+        epoch): only which names a key exists for, how two keys compare, and what filter / sort return are compared."""
         import pewlib.io.csv as pcsv
 
-        names = case["names"]
-        rep = ctx.driver.call("c04.names", names=names)["model"]
+        allnames = case["names"]
+        flags = ctx.driver.call("c04.names", names=allnames)["model"]
+        # names the TOFWERK pattern accepts but whose stamp is no valid date and time of day (or a leap second) are outside
+        # the property: what sortkey does with them (time.strptime: ValueError / accepted) is not compared
+        # likewise names the Nu pattern accepts that are not line_<digits>.csv in full (text after .csv: "the line index"
+        # is not defined for them)
+        ok = [(r["tofwerk"] is None or (r["valid_stamp"] and r["strict_stamp"])) and (r["nu"] is None or r["nufull"]) for r in flags]
+        names = [nm for nm, k in zip(allnames, ok) if k]
+        rep = [r for r, k in zip(flags, ok) if k]
+        srt = ctx.driver.call("c04.sort", names=names)["model"]
         opts = {"nu": pcsv.NuOption(), "ldr": pcsv.ThermoLDROption(), "tofwerk": pcsv.TofwerkOption(), "generic": pcsv.GenericOption()}
+        base = pathlib.Path("/nonexistent-c04-dir")
+        byname = dict(zip(names, rep))
         impl, model, feats = [], [], set()
-        for nm, r in zip(names, rep):
-            i, m = {"name": nm}, {"name": nm}
-            for v, o in opts.items():
-                rx = getattr(o, "regex", None)
-                rx = rx if isinstance(rx, re.Pattern) else re.compile(PATTERNS[v], re.IGNORECASE)
-                mt = rx.match(nm)
-                i[v] = mt is not None
-                m[v] = r[v] is not None and r[v] is not False
-                if mt is not None:
-                    feats.add("match:" + v)
-                if v == "tofwerk" and mt is not None and mt.re.groups >= 1:
-                    i["group"], m["group"] = mt.group(1).lower(), (r[v] or "").lower()
-            i["hidden"], m["hidden"] = nm.startswith("."), r["hidden"]
-            i["stem"], m["stem"] = pathlib.PurePosixPath(nm).stem, r["stem"]
-            if i["nu"] or i["ldr"]:
+        if len(names) < len(allnames):
+            feats.add("names-out-of-domain")
+
+        def model_key(v, nm):
+            r = byname[nm]
+            if v == "nu":
+                return [r["numkey"]]
+            if v == "ldr":
+                return r["ldrkey"]  # code points of the lower-cased sample name, -1, index (compared as a list = as the tuple)
+            if v == "tofwerk":
+                return [r["timegm"]] if r["strptime_ok"] else None
+            return [ord(ch) for ch in nm]
+
+        def key_relations(v, o, kept):
+            """(names without a key, [relation of neighbours in the model's key order]) on the real and the model side"""
+            real, undef_i, undef_m = {}, [], []
+            for nm in kept:
                 try:
-                    i["numkey"] = int((opts["nu"] if i["nu"] else opts["ldr"]).sortkey(pathlib.Path(nm)))
-                    m["numkey"] = r["numkey"]
-                except AttributeError:
-                    pass
-            if r["stamp"]:
-                y, mo, dd, hh, mi, ss = r["stamp"]
-                try:
-                    st = time.strptime(f"{y:04d}.{mo:02d}.{dd:02d}-{hh:02d}h{mi:02d}m{ss:02d}s", "%Y.%m.%d-%Hh%Mm%Ss")
-                    i["timegm"], m["timegm"] = calendar.timegm(st), r["timegm"]
-                    feats.add("stamp")
+                    real[nm] = o.sortkey(base / nm)
                 except ValueError:
-                    pass  # invalid date: outside the modelled stamps
-            impl.append(i)
-            model.append(m)
+                    undef_i.append(nm)
+                if model_key(v, nm) is None:
+                    undef_m.append(nm)
+            both = sorted((nm for nm in kept if nm in real and model_key(v, nm) is not None), key=lambda nm: (model_key(v, nm), nm))
+            rel_i, rel_m = [], []
+            for a, b in zip(both, both[1:]):
+                ka, kb = model_key(v, a), model_key(v, b)
+                if ka == kb and a != b:
+                    continue  # two files with one index / stamp: the property does not order them
+                rel_m.append("<" if ka < kb else "=" if ka == kb else ">")
+                try:
+                    rel_i.append("<" if real[a] < real[b] else "=" if real[a] == real[b] else ">")
+                except TypeError:
+                    rel_i.append("incomparable")
+            return (sorted(undef_i), rel_i), (sorted(undef_m), rel_m)
+
+        old_tz = os.environ.get("TZ")
+        try:
+            for nm, r in zip(names, rep):
+                i, m = {"name": nm}, {"name": nm}
+                for v, o in opts.items():
+                    rx = getattr(o, "regex", None)
+                    rx = rx if isinstance(rx, re.Pattern) else re.compile(PATTERNS[v], re.IGNORECASE)
+                    mt = rx.match(nm)
+                    i[v] = mt is not None
+                    m[v] = r[v] is not None and r[v] is not False
+                    if mt is not None:
+                        feats.add("match:" + v)
+                    if v == "tofwerk" and mt is not None and mt.re.groups >= 1:
+                        i["group"], m["group"] = mt.group(1).lower(), (r[v] or "").lower()
+                i["hidden"], m["hidden"] = nm.startswith("."), r["hidden"]
+                i["stem"], m["stem"] = pathlib.PurePosixPath(nm).stem, r["stem"]
+                if r["tofwerk"] is not None:
+                    feats.add("stamp")
+                if r["ldrparts"] is not None:
+                    feats.add("ldr-sample-index")
+                impl.append(i)
+                model.append(m)
+            # option.filter / option.sort / the order of option.sortkey on the whole batch
+            paths = [base / nm for nm in names]
+            bi, bm = {"name": "<batch>"}, {"name": "<batch>"}
+            for v, o in opts.items():
+                try:
+                    kept = o.filter(paths)
+                    bi[v + ".filter"], bm[v + ".filter"] = [q.name for q in kept], srt[v]["filter"]
+                    keys = {q.name: model_key(v, q.name) for q in kept}
+                    if len({core.canon(k) for k in keys.values()}) == len(keys):  # no two files with one index / stamp
+                        try:
+                            bi[v + ".sort"] = [q.name for q in o.sort(kept)]
+                        except ValueError:
+                            bi[v + ".sort"] = {"raises": "ValueError"}
+                        bm[v + ".sort"] = srt[v]["sort"]
+                    if len(kept) >= 2 and isinstance(bi.get(v + ".sort"), list) and bi[v + ".sort"] != bi[v + ".filter"]:
+                        feats.add("sort-reorders:" + v)
+                    # the real keys are taken under every zone of the generator for TOFWERK
+                    for tz in (gen_csvdir.ZONES if v == "tofwerk" else ["UTC"]):
+                        os.environ["TZ"] = tz
+                        time.tzset()
+                        bi[f"{v}.keys@{tz}"], bm[f"{v}.keys@{tz}"] = key_relations(v, o, [q.name for q in kept])
+                except AttributeError:  # an option without filter / sort / sortkey: not an observation point of the property
+                    feats.add("option-api-missing")
+            impl.append(bi)
+            model.append(bm)
+        finally:
+            if old_tz is None:
+                os.environ.pop("TZ", None)
+            else:
+                os.environ["TZ"] = old_tz
+            time.tzset()
         # the matchers are part of the model, not of the property: only the correspondence is judged here
         return outcome(impl, model, impl, features=feats | {"names"})
 
